@@ -5,6 +5,7 @@ SquidConfig Config;
 static Ip::Address cv_the_addr;
 
 extern "C" int cv_sanitycheck(void) { return Config.Ftp.sanitycheck; }
+extern "C" void cv_set_sanitycheck(int v) { Config.Ftp.sanitycheck = v; }   // harness-mode targets only (under --dfcc the value is havocked)
 
 extern "C" int cv_max_ipstrlen(void) { return MAX_IPSTRLEN; }
 
